@@ -169,6 +169,11 @@ func ParseOne(reader *bufio.Reader) (*ChangelogEntry, error) {
 	/* Right, so we have a signoff line */
 	_, signoff = partition(signoff, "--")  /* Get rid of the leading " -- " */
 	whom, when := partition(signoff, "  ") /* Split on the "  " */
+	if end := strings.LastIndex(signoff, ">  "); end != -1 {
+		/* the date follows the two blanks after the address; two blanks
+		 * further left belong to the name */
+		whom, when = signoff[:end+1], signoff[end+3:]
+	}
 	changeLog.ChangedBy = trim(whom)
 	/* "zero or more spaces" after the weekday's comma; the layout's ", "
 	 * stands for one or more */
